@@ -45,9 +45,13 @@ def stop_set(fx):
     # decision functions (`needs_backup`, `try_reflink` whatever they are called): they branch on the mode and
     # answer with a bool; a function that merely reads the mode among other work (a constructor) is a helper
     # (the backup decision is *not* a boundary: its rules assume a mode and prune the inlined code instead)
+    cg_ = q.callgraph(fx)
     for fld in ("reflink",):
-        for p_ in _mode_fns(fx, fld):
-            if _returns_bool(fx.fns[p_]):
+        cands = [p_ for p_ in _mode_fns(fx, fld) if _returns_bool(fx.fns[p_])]
+        for p_ in cands:
+            # only the outermost decision function is a boundary; helpers it delegates part of the decision to
+            # (`reflink_unsupported()`) are inlined into its view
+            if not any(p_ in cg_.reach(o_) for o_ in cands if o_ != p_):
                 st.add(p_)
     # libfs's public functions are the primitives libxcp is written against
     for p, f in fx.fns.items():
